@@ -60,12 +60,27 @@ def txn_parts(ctx, txn):
     byte counter (u64), the hasher, the buffered writer and the temp file - in the transaction struct itself or in a
     crate-local struct it holds by value."""
     prog = ctx.prog
-    structs = [txn] + list(_owned_structs(prog, txn).keys())
+    def is_newtype(sp):
+        return len(prog.adts[sp]["variants"][0]["fields"]) == 1
+
+    def unwrap(ty):
+        # a single-field crate-local struct *is* its field (the value-flow graph gives it no node of its own)
+        for _ in range(4):
+            t = prog.types[ty]
+            if t.get("k") == "adt" and t.get("def") in prog.adts and prog.adts[t["def"]]["kind"] == "Struct" \
+                    and is_newtype(t["def"]):
+                ty = prog.adts[t["def"]]["variants"][0]["fields"][0]["ty"]
+            else:
+                break
+        return ty
+
+    structs = [txn] + [sp for sp in _owned_structs(prog, txn).keys() if not is_newtype(sp)]
     parts = {"key": [], "size": [], "hasher": [], "writer": [], "temp": []}
     for sp in structs:
         for f in prog.adts[sp]["variants"][0]["fields"]:
-            ts = prog.ty_str(f["ty"])
-            t = prog.types[f["ty"]]
+            fty = unwrap(f["ty"])
+            ts = prog.ty_str(fty)
+            t = prog.types[fty]
             node = ("F", sp, f["name"])
             if t.get("k") == "param":
                 parts["key"].append(node)
@@ -78,6 +93,37 @@ def txn_parts(ctx, txn):
             elif t.get("k") == "adt" and effects.norm(t["def"]) == "tempfile::NamedTempFile":
                 parts["temp"].append(node)
     return parts
+
+
+def newtype_tail(ctx, node):
+    """Field names inside the single-field structs the field `node` is wrapped in (`StagedLen(u64)` -> ("0",))."""
+    prog = ctx.prog
+    out = []
+    for f in prog.adts[node[1]]["variants"][0]["fields"]:
+        if f["name"] != node[2]:
+            continue
+        ty = f["ty"]
+        for _ in range(4):
+            t = prog.types[ty]
+            a = prog.adts.get(t.get("def")) if t.get("k") == "adt" else None
+            if a and a["kind"] == "Struct" and len(a["variants"][0]["fields"]) == 1:
+                out.append(a["variants"][0]["fields"][0]["name"])
+                ty = a["variants"][0]["fields"][0]["ty"]
+            else:
+                break
+    return tuple(out)
+
+
+def path_ends_in(path, name, tail=()):
+    """Does a leaf path end in the field `name`, possibly followed by (a prefix of) the newtype fields inside it?"""
+    path = tuple(path or ())
+    for k in range(len(tail), -1, -1):
+        if k and path[-k:] != tuple(tail[:k]):
+            continue
+        rest = path[:len(path) - k] if k else path
+        if rest and rest[-1] == name:
+            return True
+    return False
 
 
 def txn_methods(ctx, txn):
